@@ -136,7 +136,24 @@ def run(ctx):
         if n.k == 'DeclStmt':
             for d, init in n.r['decls']:
                 locs[f.tu.decls[d]['n']] = (d, f.node(init) if init >= 0 else None, n)
-    ctx.need({'moffs', 'msg', 'msgLen', 'hlen', 'hmsg'} <= set(locs), 'Message::encode: locals moffs/msg/msgLen/hlen/hmsg not found')
+    # the five locals are identified by their ROLE, not by their names:
+    #   msg    = the cursor handed to the three section encoders          moffs = the local the cursor starts from
+    #   msgLen = the local handed to BodyLength.set                       hlen  = the local whose initialiser reads _preamble_sz
+    #   hmsg   = the cursor handed to the BeginString / BodyLength field encoders
+    byid = {d: (d, init, n) for (d, init, n) in locs.values()}
+
+    def local_id(e):
+        s_ = e.strip(casts=True)
+        return s_.declid if s_.k == 'DeclRefExpr' and s_.decl is not None and s_.decl.get('sc') == 'local' and s_.declid in byid else None
+    r_msg = local_id(hdr.args[0]) if hdr.args else None
+    r_moffs = local_id(byid[r_msg][1]) if r_msg is not None and byid[r_msg][1] is not None else None
+    r_len = local_id(bls[0].args[0]) if bls[0].args else None
+    r_hlen = [d for d, (_d, init, _n) in byid.items() if init is not None and q.reads_member(init, 'FIX8::F8MetaCntx::_preamble_sz')]
+    r_hmsg = local_id(bse[0].args[0]) if bse[0].args else None
+    ctx.need(None not in (r_msg, r_moffs, r_len, r_hmsg) and len(r_hlen) == 1 and len({r_msg, r_moffs, r_len, r_hmsg, r_hlen[0]}) == 5,
+             'Message::encode: the five role locals (cursor, body start, body length, preamble length, preamble cursor) were not identified')
+    for role_, d_ in (('msg', r_msg), ('moffs', r_moffs), ('msgLen', r_len), ('hlen', r_hlen[0]), ('hmsg', r_hmsg)):
+        locs[role_] = byid[d_]
     mlv = cfg.decl_vertex[locs['msgLen'][0]]
     term = [n for n in f.all_nodes() if n.k == 'BinaryOperator' and n.op == '=' and n.children[0].strip().k == 'UnaryOperator' and n.children[0].strip().op == '*' and
             q.refers_to_decl(n.children[0].strip().children[0], locs['msg'][0]) and n.children[1].strip(casts=True).value == 0]
@@ -219,7 +236,8 @@ def run(ctx):
             s = s.child('else').strip(casts=True)
         out.append((None, None, s.value))
         return out
-    lad_expr, lad_var = hl.children[1], (lambda x: q.refers_to_decl(x, locs['msgLen'][0]))
+    from ..memo import _expand as _exp
+    lad_expr, lad_var = _exp(f, hl.children[1]), (lambda x: q.refers_to_decl(x, locs['msgLen'][0]))      # the ladder may sit in a named const local
     le = lad_expr.strip(casts=True)
     if le.is_call and le.callee_qp and len(le.args) == 1 and q.refers_to_decl(le.args[0], locs['msgLen'][0]):
         for h in prog.fns(le.callee_qp):
